@@ -77,6 +77,10 @@ Definition go_sbyte (s : string) (i : Z) : Z := go_sbyte_nat s (Z.to_nat i).
 Inductive go_issue := GoError | GoWarning | GoTimeCheck.
 Definition go_err_isnil (e : option string) : bool := match e with None => true | Some _ => false end.
 
+(* arithmetic in an integer type of fewer than 64 bits wraps around *)
+Definition go_wrap_u (bits : Z) (v : Z) : Z := (v mod 2 ^ bits)%Z.
+Definition go_wrap_s (bits : Z) (v : Z) : Z := ((v + 2 ^ (bits - 1)) mod 2 ^ bits - 2 ^ (bits - 1))%Z.
+
 (* a map from strings to any other type of value: the get takes the value to answer for a missing key *)
 Fixpoint go_plookup {V} (m : list (string * V)) (k : string) : option V :=
   match m with
